@@ -9,11 +9,12 @@
 (*       refers / casc   dependent -> target  ( `refers`, cascade_deleted )  *)
 (*       member[g] static members, rdmo[x] recycled_directmemberof            *)
 (*     history (what L1 needs to remember about the past, kept beside s):    *)
-(*       h = [del, ts, want, dep]                                            *)
+(*       h = [del, ts, want, dep, rf]                                        *)
 (*       del[x]  time x entered the recycle bin;  ts[x] time it was          *)
 (*               tombstoned;  want[x] static groups that listed x when it    *)
 (*               was deleted and have been live ever since;  dep[x] the      *)
-(*               dependents that were cascade-deleted with x                 *)
+(*               dependents that were cascade-deleted with x;  rf[x] the     *)
+(*               `refers` x still held right after it entered the bin         *)
 (* L1  the lifecycle as stated: visibility; Recycled -> Tombstone only      *)
 (*     after RMax, Tombstone -> gone only after CMax, tombstones never come  *)
 (*     back; a successful revive returns the entry, its cascade-deleted     *)
@@ -44,9 +45,11 @@ ReviveOk(s, t, h, x) ==
   /\ t.lv[x] = "live"
   /\ \A d \in h.dep[x] : (s.lv[d] = "recycled" /\ s.casc[d] = {x}) => (t.lv[d] = "live" /\ x \in t.refers[d])
   /\ \A g \in h.want[x] : t.lv[g] = "live" => x \in t.member[g]
-\* nothing stands in the way of reviving x: it was not cascade-deleted behind another entry and its
-\* name is not used by a live entry
-Unobstructed(s, x) == s.casc[x] = {} /\ \A y \in s.ids \ {x} : ~(s.lv[y] = "live" /\ s.name[y] # "" /\ s.name[y] = s.name[x])
+\* nothing stands in the way of reviving x: it was not cascade-deleted behind another entry, it still
+\* holds the `refers` it had when it entered the bin (a dependent whose target was deleted afterwards has
+\* lost a mandatory reference and is legitimately refused, see C16) and its name is not used by a live entry
+Unobstructed(s, h, x) == /\ s.casc[x] = {} /\ s.refers[x] = h.rf[x]
+                         /\ \A y \in s.ids \ {x} : ~(s.lv[y] = "live" /\ s.name[y] # "" /\ s.name[y] = s.name[x])
 
 \* ----------------------------------- L2 -----------------------------------
 R(st, res) == [st |-> st, res |-> res]
@@ -100,6 +103,8 @@ Hist(h, s, t) ==
    want |-> [x \in s.ids |-> IF t.lv[x] = "recycled" /\ s.lv[x] = "live"
                              THEN {g \in s.grp : s.lv[g] = "live" /\ t.lv[g] = "live" /\ x \in s.member[g]}
                              ELSE IF t.lv[x] = "recycled" THEN {g \in h.want[x] : t.lv[g] = "live"} ELSE {}],
+   rf   |-> [x \in s.ids |-> IF t.lv[x] = "recycled" /\ s.lv[x] = "live" THEN t.refers[x]
+                             ELSE IF t.lv[x] = "recycled" THEN h.rf[x] ELSE {}],
    dep  |-> [x \in s.ids |-> IF t.lv[x] = "recycled" /\ s.lv[x] = "live"
                              THEN {d \in s.ids : s.lv[d] = "live" /\ x \in s.refers[d] /\ t.lv[d] = "recycled" /\ t.casc[d] = {x}}
                              ELSE IF t.lv[x] = "recycled" THEN h.dep[x] ELSE {}]]
